@@ -54,12 +54,24 @@ def integral_data_symbolic(shape: dict, stats: eqcheck.QStats, twin: bool = Fals
                     cons.append(seq[a] <= seq[b])  # contract of argsort (ties in any order)
             return pi
 
-        common.np = types.SimpleNamespace(argsort=argsort)
+        class _NP:  # numpy with argsort replaced by its contract
+            def __getattr__(self, k):
+                return getattr(real_np, k)
+
+        stub = _NP()
+        stub.argsort = argsort
+        common.np = stub
         try:
             out = common.integral_data(ir)
+        except Exception as e:
+            problems.append(("not-executable", shape, list(combo), f"integral_data could not be executed on symbolic ids: {type(e).__name__}: {str(e)[:120]}"))
+            continue
         finally:
             common.np = real_np
         nruns += 1
+        if calls["n"] != len(TYPES):
+            problems.append(("not-executable", shape, list(combo), f"argsort called {calls['n']} times: the symbolic model of the sort does not apply"))
+            continue
         # expand to kernel entries as C/form.py and numba/form.py do
         ent_ids, ent_names = [], []
         for nm, i, ds in zip(out.names, out.ids, out.domains):
@@ -115,6 +127,42 @@ def integral_data_symbolic(shape: dict, stats: eqcheck.QStats, twin: bool = Fals
             if sorted(grp_names) != want:
                 problems.append(("lost", shape, list(combo), f"type {t}: listed {sorted(grp_names)} expected {want}"))
     return problems, nruns
+
+
+def integral_data_concrete(shape: dict, id_values=(-1, 0, 1, 2)):
+    """Exhaustive enumeration (bounded, no solver): the unmodified function on every assignment of
+    ids from id_values, duplicates included.  Returns problems."""
+    import ffcx.codegeneration.common as common
+
+    problems = []
+    slots = [(t, k) for t in TYPES for k in range(len(shape.get(t, [])))]
+    n = 0
+    for vals in itertools.product(id_values, repeat=len(slots)):
+        ids_in = {t: [] for t in TYPES}
+        for (t, k), v in zip(slots, vals):
+            ids_in[t].append(v)
+        names_in = {t: [f"{t}#{k}" for k in range(len(shape.get(t, [])))] for t in TYPES}
+        doms_in = {t: [[f"{t}#{k}.d{j}" for j in range(nd)] for k, nd in enumerate(shape.get(t, []))] for t in TYPES}
+        ir = types.SimpleNamespace(subdomain_ids=ids_in, integral_names=names_in, integral_domains=doms_in)
+        out = common.integral_data(ir)
+        n += 1
+        ent = [(i, d) for nm, i, ds in zip(out.names, out.ids, out.domains) for d in ds]
+        exp = [0]
+        for t in TYPES:
+            exp.append(exp[-1] + sum(shape.get(t, [])))
+        ok = list(out.offsets) == exp and len(ent) == exp[-1]
+        pos = 0
+        for t in TYPES:
+            cnt = sum(shape.get(t, []))
+            grp = ent[pos : pos + cnt]
+            pos += cnt
+            want = sorted((ids_in[t][k], d) for k, ds in enumerate(doms_in[t]) for d in ds)
+            if sorted((int(i), d) for i, d in grp) != want or any(int(a[0]) > int(b[0]) for a, b in zip(grp, grp[1:])):
+                ok = False
+        if not ok:
+            problems.append(("concrete", shape, list(vals), f"ids {ids_in}: listed {ent}, offsets {list(out.offsets)}"))
+            break
+    return problems, n
 
 
 def shapes(tier):
